@@ -6,7 +6,7 @@ import re
 
 from .common import unhx
 
-PAT = re.compile(r"^= (.*?) \| tx (\S+) \| ev (\S+) \| st (\S+) neg (\d) sec (\d) q (-?\d+)(?: sm (\S+)(?: s(\d+) h(\d+) q(\S+))?)?$")
+PAT = re.compile(r"^= (.*?) \| tx (\S+) \| ev (\S+) \| st (\S+) neg (\d) sec (\d) q (-?\d+)(?: sm (\S+)(?: s(\d+) h(\d+) q(\S+))?)?(?: sid \S+)?$")
 
 F_DISABLE_TLS, F_MANDATORY_TLS, F_LEGACY_SSL, F_TRUST_TLS, F_LEGACY_AUTH, F_DISABLE_SM, F_COMPRESS, F_COMP_DR = \
     1, 2, 4, 8, 16, 32, 64, 128
